@@ -329,3 +329,24 @@ func init() {
 		ruleSchemaEmbed(c, r)
 	})
 }
+
+func init() {
+	register("C10", func(c *Ctx, r *Report) {
+		r.Decides("the structural half of set-then-get: the SetNode value is written only where the path is exhausted, with the addressed field's schema and parent; all other writes of the retrieveNode family are creation/deletion gated by flags; list entries created along the path get their key leaves from the path's key strings through the per-kind parsers, which agree with the key renderer for every key kind; payloads are decoded per kind with every parse error returned and no lossy float→integer conversion; '*' and missing keys select several entries only under GetNode's explicit options.",
+			"that GetNode returns exactly the stored value for every payload (value level); the frame condition for all trees beyond the write-site rule; sequences of sets.")
+		ruleSetAtTarget(c, r)
+		ruleWriteGated(c, r)
+		ruleTablesKeys(c, r)
+		ruleDecodeDiscipline(c, r)
+		ruleFloat2Int(c, r)
+		ruleWildcardOpt(c, r)
+		rulePartialKey(c, r)
+	})
+	register("C23", func(c *Ctx, r *Report) {
+		r.Decides("DiffSetRequestToNotifications expands notification leaves exactly like intent leaves and classifies every intent leaf by the (present, reflect.DeepEqual) table with the intent on side A, removes handled paths from the leftovers, and reports as extra only leftovers strictly below deleted/replaced paths; the intent side is the rule set of C22 (normal form, path formatting).",
+			"exactness of the classification for all request/notification pairs at value level; wildcard deletes; notifications carrying deletes (refused).")
+		ruleSetToNotifs(c, r)
+		ruleIntentNormal(c, r)
+		rulePathFmtOwner(c, r, libPkgs, 20)
+	})
+}
